@@ -3,7 +3,7 @@ import ast
 from .. import alg
 from ..alg import Rat, C
 from ..model import AnalysisError, stmt_text
-from ..symval import Evaluator, Tup, _single_atom
+from ..symval import Evaluator, Tup, _single_atom, IteV
 from ..symcheck import Oracle, sym_ellipsoid, check_equal, leaves, show, compare_values
 from ..rules import ThreadRule, where
 from ..mutate import replace_in_function, substitute
@@ -199,8 +199,22 @@ def inverse_rules(repo, rep):
     # the height formulas in use (p/cos - nu, z/sin - (1-e2) nu, p cos + z sin - a^2/nu) are different functions of (p, z, lat) that agree
     # exactly where the latitude solves the fixed-point equation: the code's expression is compared there (z eliminated by that equation)
     zfp = orc.call('z_at_fixed_point', lat=pre, x=Rat.sym('x'), y=Rat.sym('y'), a=a, e2=e2)
-    h_at = alg.subst(h, {alg.TABLE.sym('z').id: zfp}) if isinstance(h, Rat) and isinstance(zfp, Rat) else h
-    check_equal(rep, 'R-FORMULA', base + 'height', w, h_at, ref_h, 'height = p/cos(lat) - nu at the converged latitude (z eliminated with tan(lat) = (z + e^2 nu sin(lat))/p)')
+    def at_fixed_point(v):
+        if isinstance(v, IteV):
+            return IteV(v.cond, at_fixed_point(v.a), at_fixed_point(v.b))
+        if isinstance(v, Rat) and isinstance(zfp, Rat):
+            return alg.subst(v, {alg.TABLE.sym('z').id: zfp})
+        return v
+    from ..symcheck import split_ite
+    arms = split_ite(h)
+    if arms is not None and len(arms) > 1:
+        # several height formulas chosen by a condition: each arm must be the height at the fixed point
+        for n_, (conds_, arm) in enumerate(arms):
+            check_equal(rep, 'R-FORMULA', base + 'height#%d' % (n_ + 1), w, at_fixed_point(arm), ref_h,
+                        'height (arm %d of %d, taken when %s) = p/cos(lat) - nu at the converged latitude' % (n_ + 1, len(arms), ' and '.join(('' if tv else 'not ') + show(c, 1, 60) for c, tv in conds_)))
+    else:
+        h_at = at_fixed_point(h)
+        check_equal(rep, 'R-FORMULA', base + 'height', w, h_at, ref_h, 'height = p/cos(lat) - nu at the converged latitude (z eliminated with tan(lat) = (z + e^2 nu sin(lat))/p)')
     conditioning_of_height(rep, f, w, h, pre, a, e2)
     # stopping threshold
     key = 'R-BOUND::geodepy/convert.py::xyz2llh::threshold'
@@ -215,6 +229,29 @@ def inverse_rules(repo, rep):
                      expected='<= 1e-10', actual=str(thr))
     else:
         rep.holds('R-BOUND', key, where(f, L.node), 'latitude iteration stops at %s rad' % thr)
+    # an iteration cap, where there is one, must leave room for convergence: the map contracts by about e^2 nu/(nu+h) <= 0.0067 per pass, the
+    # start value atan(z (1+e'^2)/p) is off by up to 3e-3 rad at satellite heights: 0.0067^k * 3e-3 <= 3e-12 rad (0.02 mm) needs k = 5
+    # passes, and one more for the test to see it
+    key = 'R-BOUND::geodepy/convert.py::xyz2llh::cap'
+    caps = []
+    if isinstance(L.node, ast.While):
+        for c in ast.walk(L.node.test):
+            if isinstance(c, ast.Compare) and len(c.ops) == 1 and isinstance(c.comparators[0], ast.Constant) and isinstance(c.comparators[0].value, int) \
+                    and isinstance(c.ops[0], (ast.Lt, ast.LtE)) and c.comparators[0].value >= 1:
+                caps.append(c.comparators[0].value + (1 if isinstance(c.ops[0], ast.LtE) else 0))
+    elif isinstance(L.node, ast.For):
+        from . import vincenty as V
+        k_ = V.loop_cap(L.node)
+        if isinstance(k_, int):
+            caps.append(k_)
+    if not caps:
+        rep.holds('R-BOUND', key, where(f, L.node), 'the iteration runs until the threshold is met (no pass limit)')
+    elif min(caps) < 6:
+        rep.violated('R-BOUND', key, where(f, L.node), 'the latitude iteration is limited to %d passes: at satellite heights the start value is off by up to 3e-3 rad and each pass gains a '
+                     'factor of about 150 (e^2), so 0.02 mm needs five passes plus the one that notices - with %d the result is up to 0.4 mm off at 2 000 km' % (min(caps), min(caps)),
+                     expected='no limit, or at least 6 passes', actual=stmt_text(L.node.test) if isinstance(L.node, ast.While) else stmt_text(L.node.iter))
+    else:
+        rep.holds('R-BOUND', key, where(f, L.node), 'pass limit %d leaves room for convergence (6 needed)' % min(caps))
     bad = []
     for comp, v in zip(('lat', 'lon', 'h'), val.items):
         for leaf in sorted(leaves(v)):
@@ -236,6 +273,55 @@ def inverse_rules(repo, rep):
         rep.holds('R-LEAVES', key, w, 'every leaf is x, y, z or an attribute of the call\'s own ellipsoid')
 
 
+def math_pi_half():
+    import math
+    return math.pi / 2
+
+
+def _den_ratio(v, pre, phi, conds):
+    """|denominator of v| at latitude phi relative to mid latitude, provided the branch conditions select v at phi; None when not selected / not evaluable"""
+    import math
+    pid = [k for k in pre.atoms(deep=False)]
+    if len(pid) != 1:
+        return None
+    forms_ = [v] + [c for c, tv in conds if isinstance(c, Rat)]
+    ids = {}
+    for r_ in forms_:
+        for k in sorted(r_.atoms(deep=True)):
+            at = alg.TABLE.atoms[k]
+            if at.kind == 'sym':
+                ids[at.name] = k
+
+    def env_at(ph):
+        env = {}
+        for n, k in ids.items():
+            if n == 'pi':
+                continue
+            if n.endswith('semimaj'):
+                env[k] = 6378137.0
+            elif n.endswith('ecc1sq'):
+                env[k] = 0.00669438
+            elif n.endswith('ecc2sq'):
+                env[k] = 0.00673950
+            elif n in ('x', 'y'):
+                env[k] = 4.5e6 * math.cos(ph) + 1e-3
+            elif n == 'z':
+                env[k] = 6.3e6 * math.sin(ph) + 1e-3
+            else:
+                env[k] = 0.5
+        env[pid[0]] = ph
+        return env
+    try:
+        e1 = env_at(phi)
+        for c, tv in conds:
+            if isinstance(c, Rat) and (abs(alg.evalf(c, e1)) != 0.0) != tv:
+                return None
+        den = Rat(v.den, None, False)
+        return abs(alg.evalf(den, e1)) / max(abs(alg.evalf(den, env_at(0.7))), 1e-300)
+    except Exception:
+        return None
+
+
 def conditioning_of_height(rep, f, w, h, pre, a, e2):
     """the property covers every point off the rotation axis, up to 40 000 km: the height must not be formed as a quotient whose
     denominator vanishes inside that domain.  p/cos(lat) near the poles (z/sin(lat) near the equator) divides two quantities that both
@@ -244,9 +330,27 @@ def conditioning_of_height(rep, f, w, h, pre, a, e2):
     equator, relative to its value at mid latitude."""
     import math
     key = 'R-COND::geodepy/convert.py::xyz2llh::height'
-    if not isinstance(h, Rat):
+    from ..symcheck import split_ite
+    forms = [(v, conds) for conds, v in (split_ite(h) or []) if isinstance(v, Rat)]
+    if not forms or (not isinstance(h, (Rat, IteV))):
         rep.undecided('R-COND', key, w, 'height is not a numeric form')
         return
+    if len(forms) > 1:
+        # the height is chosen between several formulas: each is looked at where its own condition selects it
+        bad = []
+        for v, conds in forms:
+            for where_, phi in (('at the poles (cos(lat) -> 0)', math_pi_half() - 1e-9), ('on the equator (sin(lat) -> 0)', 1e-9)):
+                r_ = _den_ratio(v, pre, phi, conds)
+                if r_ is not None and r_ < 1e-6:
+                    bad.append(where_)
+        if bad:
+            rep.violated('R-COND', key, w, 'the height formula selected %s is a quotient whose denominator vanishes there: the branch condition picks, in each region, the formula that '
+                         'is ill-conditioned in it (near the equator z/sin(lat) returns the height centimetres to metres off, exactly on it it raises ZeroDivisionError)' % ' and '.join(sorted(set(bad))),
+                         expected='p/cos(lat) away from the poles, z/sin(lat) away from the equator - or a form without a vanishing denominator', actual=show(h, 2, 200))
+        else:
+            rep.holds('R-COND', key, w, 'each height formula is used only where its denominator stays away from zero')
+        return
+    h = forms[0][0]
     den = Rat(h.den, None, False) if hasattr(h, 'den') else None
     ids = {}
     for k in sorted(h.atoms(deep=True)):
